@@ -176,6 +176,33 @@ impl<'v> StarlarkIntRef<'v> {
         }
     }
 
+    /// Compare with a float by mathematical value, without rounding the integer to a float.
+    ///
+    /// NaN is greater than any other number.
+    pub(crate) fn cmp_f64(self, f: f64) -> Ordering {
+        let big = match self {
+            // Inline integers are exactly representable as `f64`.
+            StarlarkIntRef::Small(i) => {
+                return i.to_f64().partial_cmp(&f).unwrap_or(Ordering::Less);
+            }
+            StarlarkIntRef::Big(big) => big.get(),
+        };
+        if f.is_nan() || f == f64::INFINITY {
+            return Ordering::Less;
+        }
+        if f == f64::NEG_INFINITY {
+            return Ordering::Greater;
+        }
+        // A finite float is an integer plus a fraction in `(-1, 1)`, both exactly.
+        let trunc = f.trunc();
+        let Some(trunc_int) = BigInt::from_f64(trunc) else {
+            // Not reachable: `trunc` is finite.
+            return Ordering::Less;
+        };
+        big.cmp(&trunc_int)
+            .then_with(|| 0f64.partial_cmp(&(f - trunc)).unwrap_or(Ordering::Equal))
+    }
+
     pub(crate) fn to_i32(self) -> Option<i32> {
         match self {
             StarlarkIntRef::Small(i) => Some(i.to_i32()),
